@@ -316,7 +316,7 @@ def via_collection(s, idx):
     """MosCollection re-reads every message, so it must never exhibit sharing:
     merging the same collection twice (fresh) gives identical text."""
     rng = s.rng('coll', idx)
-    pool = gen.text_pool('plain')
+    pool = gen.text_pool('plain' if idx % 2 else 'hostile')
     ids = gen.Ids('V%d.' % idx)
     ro_txt = gen.rand_ro(rng, n_stories=rng.randint(2, 4), pool=pool, message_id=1)
     state = Abs(ro_txt)
@@ -371,6 +371,27 @@ def judge_twice(s, docs):
         judge_shared_readers(s, docs)
     a, _, ea, _ = K.collection_merge(s, docs, False)
     b, _, eb, _ = K.collection_merge(s, docs, False)
+    if a is not None and ea is None and len(docs) % 3 == 0:
+        # the same documents handed over as files: the result depends on their content only, not on how they came
+        import shutil
+        import tempfile
+        from .. import events as EV
+        td = tempfile.mkdtemp(prefix='verif-c13-')
+        try:
+            c, cerr = K.make_collection(s, docs, 'files', True, td)
+            ec = None
+            if c is not None:
+                ec, _w = K.merge_collection(s, c, False)
+            EV.drain()
+            s.evaluations += 1
+            s.hist['collections_also_built_from_files'] += 1
+            if c is None or ec is not None or str(c) != str(a):
+                s.custom_violation('same-collection-merged-twice-differs',
+                                   {'how': 'files vs strings', 'cannot_be_built': type(cerr).__name__ if cerr else None,
+                                    'merge_exc': type(ec).__name__ if ec else None, 'host': getattr(s, 'hostenv', 'plain')},
+                                   {'type': 'collection', 'docs': docs, 'strict': False})
+        finally:
+            shutil.rmtree(td, ignore_errors=True)
     if a is not None and b is not None:
         s.evaluations += 1
         s.note_sig(('collection-twice', str(a) == str(b)))
